@@ -76,6 +76,18 @@ MAXLIVE = 4
 # ============================================================================= the Python side of a history
 def mkpath(j):
     segs = [gen.seg_from_json(s) for s in j['segments']]
+    if j.get('via') == 'nodelist' and j['closed'] and segs:
+        # the same closed contour handed over as a NODE LIST that does not repeat its start node, rotated so that it may begin on any node
+        # (also an off-curve one): the library has to find the first on-curve node and add the closing segment itself
+        from beziers.path.representations.Nodelist import Node
+        nl = []
+        for s in segs:
+            nl += [Node(q.x, q.y, 'offcurve') for q in s.points[1:-1]]
+            nl.append(Node(s.points[-1].x, s.points[-1].y, 'line' if len(s.points) == 2 else 'curve'))
+        # nl[-1] is the start node (end of the closing segment); the list is cyclic, rotate it
+        k = j.get('rot', 0) % len(nl)
+        nl = nl[k:] + nl[:k]
+        return BezierPath.fromNodelist(nl, closed=True)
     p = BezierPath.fromSegments(segs)
     p.closed = j['closed']
     return p
@@ -178,6 +190,9 @@ def rand_init_path(rng, ints=None, closed=None, nseg=None, style=None):
         mid = [rand_pt(rng, ints) for _ in range(k - 2)]
         segs.append({'kind': gen.KINDS[k].__name__, 'points': [list(cur)] + [list(m) for m in mid] + [list(end)]})
         cur = end
+    if closed and n >= 2 and len(segs[-1]['points']) > 2 and rng.random() < 0.3:
+        # closing curve whose last handle is retracted onto the start node (its last off-curve node coincides with the first on-curve node)
+        segs[-1]['points'][-2] = list(start)
     if style == 'repeat' and n >= 2 and not closed:
         # the same segment value twice: a there-and-back-and-there chain  a, rev(a), a
         a = segs[0]; back = {'kind': a['kind'], 'points': list(reversed(a['points']))}
@@ -546,6 +561,14 @@ def check_history(h, stop_at_first=True):
     for i, p in enumerate(w.paths):
         v = value(p)
         state[i]['closed_ok'] = bool(v) and p.closed and v[0][1][0] == v[-1][1][-1]
+        if h['init'][i].get('via') == 'nodelist':
+            # conversion between representations at construction: the path must be the contour it was given (as a cyclic sequence of segments)
+            want = [(s['kind'], tuple(tuple(q) for q in s['points'])) for s in h['init'][i]['segments']]
+            got = [(k_, tuple(tuple(q) for q in pts_)) for k_, pts_ in v]
+            rots = [want[r:] + want[:r] for r in range(len(want))]
+            if got not in rots:
+                fails.append({'class': 'C07-conversion', 'what': f'a closed contour of {len(want)} segments handed over as a node list (start not repeated, rotation {h["init"][i].get("rot", 0)}) became {len(got)} segments: {got[-1:]}', 'step': -1, 'op': ['fromNodelist', i]})
+    if fails and stop_at_first: return fails, {'steps': 0, 'errors': 0}
     stats = {'steps': 0, 'errors': 0}
     for step, op in enumerate(h['ops']):
         k, r = op[0], op[1]
@@ -687,7 +710,7 @@ def segment_level(rng, n):
     return fails, ev
 
 
-FAMILIES = ['random', 'random', 'random', 'near-touch', 'flatten-round', 'append-mutate', 'self-append', 'closed-append', 'clone-chain', 'open-return', 'double-append', 'requery']
+FAMILIES = ['random', 'random', 'random', 'near-touch', 'flatten-round', 'append-mutate', 'self-append', 'closed-append', 'clone-chain', 'open-return', 'double-append', 'requery', 'nodelist-start']
 
 
 def family_history(rng, fam, maxlen):
@@ -739,6 +762,11 @@ def family_history(rng, fam, maxlen):
         ops = [['append', 0, 1], ['append', 0, 1]] + [rng.choice([['reverse', 0], ['translate', 0, 3.0, -2.0], ['scale', 0, 2.0], ['rotate', 0, 1.0, 2.0, 0.5], ['addExtremes', 0],
                                                                   ['flatten', 0, 8], ['clone', 0], ['asNodelist', 0]]) for _ in range(rng.randint(1, 3))]
         return {'init': [a, b], 'ops': ops}
+    if fam == 'nodelist-start':
+        a = rand_init_path(rng, ints=ints, closed=True, nseg=rng.randint(2, 5), style='mixed')
+        a['via'] = 'nodelist'; a['rot'] = rng.randint(0, 12)
+        ops = [rand_simple(rng, 0) for _ in range(rng.randint(1, 3))]
+        return {'init': [a], 'ops': ops}
     if fam == 'requery':
         # ask, edit in place, ask again (state cached on Segment/path objects must not survive the edit)
         d = rng.choice([8, 8, 20.0, 50])
